@@ -10,7 +10,7 @@ steps (executed in order by the main thread):
   ['sleep', d]   ['wait_mark', name, timeout]   ['wait', tag, timeout]
   ['wait_all', timeout]  ['drain', tag, timeout]   (consume an imap iterator)
   ['close'] ['join'] ['terminate'] ['terminate_job', tag] ['sigterm_worker', tag]
-  ['kill_idle', sig] ['snapshot', name] ['del_pool'] ['apply_sync', tag, script]
+  ['kill_idle', sig] ['wait_short', size, timeout] ['snapshot', name] ['del_pool'] ['apply_sync', tag, script]
   ['map_sync', tag, script, n, chunksize, kind]
   ['maintain'] ['pump', seconds] ['drive', seconds]   (threads=False pools)
 """
@@ -87,7 +87,19 @@ def main():
                 time.sleep(pc['slow_start'])
                 return super().start()
         pool._Process = SlowStart
+    if pc.get('slow_create'):
+        # replacement workers take a while to build (a loaded machine): the
+        # window in which the dead worker has left the list and the new one is
+        # not yet in it
+        base_create = pool._create_worker_process
+
+        def slow_create(i):
+            event('creating', i, '%.6f' % time.monotonic())
+            time.sleep(pc['slow_create'])
+            return base_create(i)
+        pool._create_worker_process = slow_create
     handles = {}
+    killed = set()
     state = {'pool': pool}
 
     def mk_callbacks(tag):
@@ -286,7 +298,14 @@ def main():
                 idle = [w.pid for w in pool._pool if w.pid not in busy]
                 rec['pid'] = idle[0] if idle else None
                 if idle:
+                    killed.add(idle[0])
                     kill_pid(idle[0], step[1])
+            elif op == 'wait_short':
+                # until the supervisor has taken a dead worker off the list
+                end = time.monotonic() + step[2]
+                while len(pool._pool) >= step[1] and time.monotonic() < end:
+                    time.sleep(0.002)
+                rec['size'] = len(pool._pool)
             elif op == 'wait_starts':
                 end = time.monotonic() + step[2]
                 while len(starts) < step[1] and time.monotonic() < end:
@@ -328,7 +347,8 @@ def main():
                 end = time.monotonic() + step[2]
                 while time.monotonic() < end:
                     ws = list(pool._pool)
-                    if len(ws) == step[1] and all(w._is_alive() for w in ws):
+                    if len(ws) == step[1] and all(w._is_alive() for w in ws) \
+                            and not killed & {w.pid for w in ws}:
                         break
                     time.sleep(0.05)
                 rec['size'] = len(pool._pool)
